@@ -53,3 +53,25 @@ def _shift_real_clock(offset: float) -> None:
     dt.datetime = ShiftedDateTime
     real_time = time.time
     time.time = lambda: real_time() + offset
+
+
+# POSIX TZ strings (no tzdata needed): the host's time zone is one more thing a run must not depend on
+TIME_ZONES = ("EST5EDT,M3.2.0,M11.1.0", "JST-9", "XST-5:30", "GMT0BST,M3.5.0/1,M10.5.0", "NZST-12NZDT,M9.5.0,M4.1.0/3")
+
+
+def set_tz(tz) -> None:
+    """Host time zone of the process for the duration of one run (scenario key "tz"); None = UTC."""
+    import time
+
+    want = os.environ.get("VERIF_FORCE_TZ") or tz or "UTC0"  # VERIF_FORCE_TZ: C14's fresh interpreters each live in a zone of their own
+    if os.environ.get("TZ") != want:
+        os.environ["TZ"] = want
+        time.tzset()
+
+
+def tz_for(tag) -> object:
+    """Side draw (does not touch the scenario's main generator): a quarter of the scenarios run under a foreign host time zone."""
+    import random
+
+    r = random.Random("tz|%s" % (tag,))
+    return r.choice(TIME_ZONES) if r.random() < 0.25 else None
